@@ -521,9 +521,9 @@ def select_units(ctx, cases, conf_bad):
     if ctx.quick:
         # invocations are the cost: sel shares two (-checks, -fail, exit) groups, tree / fail have one group per flag value
         sel = cover_and_sample(ctx, by_model["sel"], 1200)
-        tree = cover_and_sample(ctx, by_model["tree"], 450, pairs=False) + cover_and_sample(ctx, by_model["broken"], 40, pairs=False)
-        fail = cover_and_sample(ctx, by_model["fail"], 120, pairs=False)
-        side, nbad = 150, 30
+        tree = cover_and_sample(ctx, by_model["tree"], 300, pairs=False) + cover_and_sample(ctx, by_model["broken"], 30, pairs=False)
+        fail = cover_and_sample(ctx, by_model["fail"], 90, pairs=False)
+        side, nbad = 120, 20
     else:
         # config.Load is bound on every configuration; end to end: every sel and broken configuration,
         # a cover + large sample of tree and fail
@@ -658,7 +658,7 @@ def run(ctx):
     if bbase != baseline:
         raise Inconclusive("the real binary and the in-process command disagree on the fixture baseline")
     gkeys = sorted(groups, key=repr)
-    bsel = vlib.sample(ctx, gkeys, 30 if ctx.quick else 400)
+    bsel = vlib.sample(ctx, gkeys, 20 if ctx.quick else 400)
     bgroups = {k: groups[k][: sum(POOL.values())] for k in bsel}
     bjobs, bunits, bmism, _ = execute(ctx, helper, sc, bpool, bbase, bgroups, lambda gi: list(FORMATS), "binary", "binary")
     report(ctx, bmism, "binary")
